@@ -44,11 +44,11 @@ try:
         OBLIG_BY_PROP["C09"] = OBLIG_BY_PROP["C09"] + list((getattr(_bB, "OBLIG_BY_PROP", None) or {}).get("C09", getattr(_bB, "OBLIG", [])))
 except Exception:  # the queue-level theorems stand on their own
     pass
-# C09 for the unbounded queue inside the backend model (bundle W: refused at the maximum capacity, granted after the drain)
+# C09 for the unbounded queue inside the backend model (bundle X: refused at the maximum capacity, granted after the drain)
 try:
-    _bW = importlib.import_module("props.backend_thm_W")
-    THEOREMS["C09"] = THEOREMS["C09"] + list(_bW.THEOREMS.get("C09", []))
-    MODULES["C09"] = MODULES["C09"] + [m for m in _bW.MODULES.get("C09", []) if m not in MODULES["C09"]]
+    _bX = importlib.import_module("props.backend_thm_X")
+    THEOREMS["C09"] = THEOREMS["C09"] + list(_bX.THEOREMS.get("C09", []))
+    MODULES["C09"] = MODULES["C09"] + [m for m in _bX.MODULES.get("C09", []) if m not in MODULES["C09"]]
 except Exception:
     pass
 
